@@ -93,11 +93,14 @@ type FuncContract struct {
 	Calls       []*CallClause
 	Modifies    []ModTarget
 	Pure        bool
+	Functional  bool
 	Trusted     bool
 	Extern      bool
 	InlineOnly  bool
 	NoSafety    bool
 	AllowPanic  Expr
+	MapAccess   []*Clause // must hold at every map read/write in the function
+	AllocBound  Expr
 	Sets        []GhostSet
 	Mode        string
 	Replay      string
@@ -364,8 +367,17 @@ func (p *parser) parsePostfix() Expr {
 		switch {
 		case p.isOp("."):
 			p.next()
-			if p.isOp("(") { // type assertion not supported
-				panic("type assertion in spec")
+			if p.isOp("(") { // receiver part of a method name: pkg.(*T).Method
+				p.next()
+				seg := "("
+				if p.isOp("*") {
+					p.next()
+					seg += "*"
+				}
+				seg += p.next().text + ")"
+				p.expect(")")
+				x = &EField{x, seg}
+				continue
 			}
 			n := p.next()
 			x = &EField{x, n.text}
@@ -476,7 +488,7 @@ func (p *parser) parsePrimary() Expr {
 
 var clauseKeywords = map[string]bool{
 	"func": true, "extern": true, "ensures_trusted": true, "props": true, "requires": true, "ensures": true, "modifies": true,
-	"pure": true, "trusted": true, "loop": true, "call": true, "allowpanic": true, "set": true,
+	"pure": true, "functional": true, "trusted": true, "loop": true, "call": true, "allowpanic": true, "mapaccess": true, "allocbound": true, "set": true,
 	"pred": true, "fn": true, "axiom": true, "lemma": true, "ghost": true, "abstract": true,
 	"mode": true, "inline": true, "nosafety": true, "replay": true, "const": true, "package": true,
 }
@@ -578,6 +590,9 @@ func parseSpecFile(path string) (*SpecFile, error) {
 			cur.Replay = c.rest
 		case "pure":
 			cur.Pure = true
+		case "functional":
+			cur.Pure = true
+			cur.Functional = true
 		case "trusted":
 			cur.Trusted = true
 		case "inline":
@@ -604,6 +619,19 @@ func parseSpecFile(path string) (*SpecFile, error) {
 				return nil, fail(c, "%v", err)
 			}
 			cur.AllowPanic = e
+		case "mapaccess":
+			// mapaccess requires label: E
+			cl, err := parseClause(strings.TrimSpace(strings.TrimPrefix(c.rest, "requires")))
+			if err != nil {
+				return nil, fail(c, "%v", err)
+			}
+			cur.MapAccess = append(cur.MapAccess, cl)
+		case "allocbound":
+			e, err := parseExpr(c.rest)
+			if err != nil {
+				return nil, fail(c, "%v", err)
+			}
+			cur.AllocBound = e
 		case "modifies":
 			for _, part := range splitTop(c.rest, ',') {
 				part = strings.TrimSpace(part)
@@ -817,6 +845,8 @@ func sortFromText(s string) Sort {
 		return SBool
 	case "Arr", "arr":
 		return SArr
+	case "String", "string":
+		return Sort("String")
 	}
 	return Sort(s)
 }
